@@ -295,12 +295,22 @@ def gen_bulk(rng, name, npk):
 
 
 # ---------------------------------------------------------------- main
+MODEL_DEPS = ["theories/BuilderOrder.v", "theories/Udp.v", "theories/Tcp.v", "theories/Attrib.v", "theories/Import.v"]
+
+
+def model_exe():
+    return build_model("C08", "ExtractC08.v", os.path.join(ROOT, "ocaml/c08"), MODEL_DEPS)[0]
+
+
+def setup():
+    model_exe()
+
+
 def main(tier, seed, replay=None):
     t0 = time.time()
     nomodel = bool(os.environ.get("VERIF_NOMODEL"))      # development only
     proof = Proof(PROP)
-    exe = None if nomodel else c05.build_model("C08", "ExtractC08.v", os.path.join(ROOT, "ocaml/c08"),
-                                               ["theories/BuilderOrder.v", "theories/Udp.v", "theories/Tcp.v", "theories/Attrib.v", "theories/Import.v"])[0]
+    exe = None if nomodel else model_exe()
     rng = random.Random(seed)
     known, fixed = known_findings(PROP)
     known_ids = {k.get("id") for k in known}
